@@ -475,12 +475,17 @@ func execPropSweep(c *FSCase, st *Stats) (*Violation, interface{}, bool) {
 func execOOMProbe(c *FSCase, st *Stats) (*Violation, interface{}, bool) {
 	if !singleCaseProcess {
 		os.Setenv("VERIF_RLIMIT_MB", "3000")
+		os.Setenv("VERIF_CHILD_TIMEOUT_S", "20")
 		v, rc, ok := isolatedExec(fsEngine{}, c, st)
 		os.Unsetenv("VERIF_RLIMIT_MB")
+		os.Unsetenv("VERIF_CHILD_TIMEOUT_S")
 		if v != nil {
+			// either the allocation fails (process dies) or, where memory is not
+			// capped, it succeeds and 2^32-1 iterations follow (process wedged):
+			// the same defect
 			v.Key = "oom " + cellKey(c)
-			if v.Class == "process_crash" {
-				v.Class = "process_killed_by_allocation"
+			if v.Class == "process_crash" || v.Class == "process_wedged" {
+				v.Class = "process_killed_or_wedged_by_huge_length"
 			}
 		}
 		return v, rc, ok
@@ -717,7 +722,7 @@ func (fsEngine) Enumerate(tier string) []interface{} {
 	seed, _ := strconv.Atoi(os.Getenv("VERIF_SEED"))
 	for i, from := 0, 0; from < len(builtinPaths); i, from = i+1, from+width {
 		// quick: all kind pairs only for a seed-selected sixth of the surface
-		out = append(out, &FSCase{Engine: "faultsweep", From: from, To: from + width, Pairs: tier == "thorough" || (i+seed)%10 == 0})
+		out = append(out, &FSCase{Engine: "faultsweep", From: from, To: from + width, Pairs: tier == "thorough" || (i+seed)%16 == 0})
 	}
 	for _, k := range fsKinds {
 		out = append(out, &FSCase{Engine: "faultsweep", Fault: "propsweep", Recv: k})
